@@ -1152,3 +1152,142 @@ example : ∃ r s', callO (fun _ _ => (0 : Int)) (.vecsum (.leaf retInputLeaf) (
     C03.allOK_weaken False (.leaf retInputLeaf) C03.ret_input_leaf_ok
   have hok : AllOKg False (Op.vecsum (.leaf (retInputLeaf (K := Int))) (fun _ => 7)) := ⟨hl, rfl⟩
   exact C03.wrapper_result_is_new_object False _ _ hok trivial ⟨fun _ _ => 5, 1⟩ 0 (by simp)
+
+/-! ### Round 4: more `default_ops.py` bodies under the leaf contract -/
+
+/-- `ZeroOperator` with `domain != range` (model `zeroDiffLeaf`, the `else` branch of its
+`_call`, executed by the `leaf` stream): out-of-place it returns a NEW object holding zeros
+and writes nothing; in-place it leaves zeros in `out` whatever `out` held (the temporary
+`range.zero()` is a new object), returns `out`, and writes nothing else — the input is never
+read, so the aliased call is covered too. Hence `call_protocol` applies to every tree that
+contains it. -/
+theorem C03.zero_diff_leaf_ok {K : Type} [Add K] [Mul K] [OfNat K 0] :
+    LeafOK (zeroDiffLeaf (K := K)) := by
+  refine ⟨fun _ => ⟨fun s x hx => ?_, rfl⟩, fun _ s x y hx hy => ?_⟩
+  · obtain ⟨s0, ea, hn0, hv0, hf0⟩ := alloc_spec s (fun _ => (0 : K))
+    simp only [zeroDiffLeaf, ea]
+    exact ⟨by omega, by omega, hv0, fun b hb => hf0 b (by omega)⟩
+  · obtain ⟨s0, ea, hn0, hv0, hf0⟩ := alloc_spec s (fun _ => (0 : K))
+    simp only [zeroDiffLeaf, ea]
+    refine ⟨by simp, ?_, ?_, by simp only [write_next]; omega⟩
+    · rw [write_mem_same, hv0]
+    · intro b hb hne; rw [write_mem_other _ _ _ _ hne, hf0 b (by omega)]
+
+/-- `MultiplyOperator` with a SCALAR multiplicand on a space (model `multScalarLeaf`, both
+`out` branches with their temporaries: `tmp = space.element(); lincomb(c, x, out=tmp)` and then
+`return tmp` | `out.assign(tmp)`): whatever the uninitialised temporary and `out` held, the
+result holds what `lincomb(c, x)` computes (`lincombSmall`: exact zeros for `c == 0`, else
+`c·x + 0·x`; equal to `c·x` in every ring: `mult_scalar_value`), is a new object out-of-place
+and `out` in-place, also for `x is out`; nothing else is written. -/
+theorem C03.mult_scalar_leaf_ok {K : Type} [Add K] [Mul K] [OfNat K 0] (isz : K → Bool)
+    (jk : Nat → Vec K) (c : K) : LeafOK (multScalarLeaf isz jk c) := by
+  refine ⟨fun _ => ⟨fun s x hx => ?_, rfl⟩, fun _ s x y hx hy => ?_⟩
+  · obtain ⟨s0, ea, hn0, hv0, hf0⟩ := alloc_spec s (jk s.next)
+    simp only [multScalarLeaf, ea]
+    refine ⟨by simp only [write_next]; omega, by simp only [write_next]; omega, ?_, ?_⟩
+    · rw [write_mem_same, hf0 x (by omega)]
+    · intro b hb; rw [write_mem_other _ _ _ _ (by omega), hf0 b (by omega)]
+  · obtain ⟨s0, ea, hn0, hv0, hf0⟩ := alloc_spec s (jk s.next)
+    simp only [multScalarLeaf, ea]
+    refine ⟨by simp, ?_, ?_, by simp only [write_next]; omega⟩
+    · rw [write_mem_same, write_mem_same, hf0 x (by omega)]
+    · intro b hb hne
+      rw [write_mem_other _ _ _ _ hne, write_mem_other _ _ _ _ (by omega), hf0 b (by omega)]
+
+/-- `ImagPart` on a real space (model `imagLeaf`: `return x.imag`, a new zero element;
+out-of-place only, in-place through `_default_call_in_place`). -/
+theorem C03.imag_leaf_ok {K : Type} [Add K] [Mul K] [OfNat K 0] :
+    LeafOK (imagLeaf (K := K)) := by
+  refine ⟨fun _ => ⟨fun s x hx => ?_, rfl⟩, fun h => absurd rfl h⟩
+  obtain ⟨s0, ea, hn0, hv0, hf0⟩ := alloc_spec s (fun _ => (0 : K))
+  simp only [imagLeaf, ea]
+  exact ⟨by omega, by omega, hv0, fun b hb => hf0 b (by omega)⟩
+
+/-- `ComplexModulus` on a real space (model `cmodLeaf`, all five temporaries of
+`(x.real ** 2 + x.imag ** 2).ufuncs.sqrt()` as separate new objects): the returned object is
+new, holds `sqrt(x_i·x_i + 0·0)`, and no existing object — in particular `x`, which IS
+`x.real` — is written. -/
+theorem C03.cmod_leaf_ok {K : Type} [Add K] [Mul K] [OfNat K 0] (sq : K → K) :
+    LeafOK (cmodLeaf sq) := by
+  refine ⟨fun _ => ⟨fun s x hx => ?_, rfl⟩, fun h => absurd rfl h⟩
+  simp only [cmodLeaf, alloc]
+  refine ⟨by omega, by omega, ?_, ?_⟩
+  · funext i
+    have e1 : ¬ (s.next = s.next + 1 + 1) := by omega
+    simp [e1]
+  · intro b hb
+    have h0 : b ≠ s.next := by omega
+    have h1 : b ≠ s.next + 1 := by omega
+    have h2 : b ≠ s.next + 1 + 1 := by omega
+    have h3 : b ≠ s.next + 1 + 1 + 1 := by omega
+    have h4 : b ≠ s.next + 1 + 1 + 1 + 1 := by omega
+    simp [h0, h1, h2, h3, h4]
+
+/-- `LinCombOperator(X, a, b)` (`linCombO` / `linCombI`, executed by the `lincomb` op):
+`op(x)` returns a NEW object holding `lincomb(a, x₀, b, x₁)` (`lincombSmall`; `a·x₀ + b·x₁` in
+every ring: `lincomb_small_value`) whatever `range.element()` contained, and
+writes no existing object; `op(x, out=y)` leaves the same value in `y` — also when `y` IS the
+component `x₀` or `x₁` — and writes nothing else. (The atomic `lincomb` is the subject of C01.) -/
+theorem C03.lin_comb_operator {K : Type} [Add K] [Mul K] [OfNat K 0] (isz : K → Bool)
+    (jk : Nat → Vec K)
+    (a b : K) (x : Nat → Nat) (y : Nat) (s : St K) (h0 : x 0 < s.next) (h1 : x 1 < s.next) :
+    ((linCombO isz jk a b x s).1 = s.next ∧
+      (linCombO isz jk a b x s).2.mem (linCombO isz jk a b x s).1 =
+        lincombSmall isz a (s.mem (x 0)) b (s.mem (x 1)) ∧
+      ∀ k : Nat, k < s.next → (linCombO isz jk a b x s).2.mem k = s.mem k) ∧
+    ((linCombI isz a b x y s).mem y = lincombSmall isz a (s.mem (x 0)) b (s.mem (x 1)) ∧
+      ∀ k : Nat, k ≠ y → (linCombI isz a b x y s).mem k = s.mem k) := by
+  obtain ⟨s0, ea, hn0, hv0, hf0⟩ := alloc_spec s (jk s.next)
+  refine ⟨?_, ?_⟩
+  · simp only [linCombO, ea]
+    refine ⟨trivial, ?_, ?_⟩
+    · rw [write_mem_same, hf0 _ (by omega), hf0 _ (by omega)]
+    · intro k hk; rw [write_mem_other _ _ _ _ (by omega), hf0 k (by omega)]
+  · simp only [linCombI]
+    exact ⟨write_mem_same _ _ _, fun k hk => write_mem_other _ _ _ _ hk⟩
+
+/-- Non-vacuity and use: the round-4 leaves inside a tree satisfy the hypotheses of
+`call_protocol`; `ZeroOperator(X, Y) + 3·|x|` … evaluated in place over ℤ with `sq := id` on
+x = (−4, …) gives `0 + 2·((−4)·(−4) + 0·0) = 32` in `y`, whatever `y` held. -/
+example : let e : Op Int :=
+      .sum (.leaf zeroDiffLeaf) (.sum (.leaf imagLeaf)
+                                      (.comp (.leaf (multScalarLeaf (· == 0) (fun _ _ => 77) 2))
+                                             (.leaf (cmodLeaf id))))
+    AllOK e ∧ e.fn = false ∧
+      ∃ s', callI (fun _ _ => 99) e 0 1 ⟨fun b _ => if b = 0 then -4 else 12345, 2⟩ = .ok 1 s' ∧
+        s'.mem 1 0 = 32 := by
+  intro e
+  have hK := C03.comm_arith_of_comm_ring Int
+  have hok : AllOK e := by
+    simp only [e, AllOK, Op.fn]
+    exact ⟨C03.zero_diff_leaf_ok, ⟨C03.imag_leaf_ok,
+      ⟨C03.mult_scalar_leaf_ok _ _ 2, C03.cmod_leaf_ok id⟩, by trivial⟩, by trivial⟩
+  refine ⟨hok, rfl, ?_⟩
+  obtain ⟨s', e1, v1, _, _⟩ := C03.call_in_place hK (fun _ _ => 99) e hok rfl
+    ⟨fun b _ => if b = 0 then -4 else 12345, 2⟩ 0 1 (by simp) (by simp)
+  exact ⟨s', e1, by rw [v1]; simp [e, den, zeroDiffLeaf, imagLeaf, multScalarLeaf, cmodLeaf, lincombSmall]⟩
+
+example : (linCombI (· == 0) (2 : Int) 3 (fun j => j) 0
+    ⟨fun b _ => if b = 0 then 5 else 7, 2⟩).mem 0 0 = 31 := by
+  simp [linCombI, St.write, lincombSmall]
+
+/-- In every commutative ring, with `isz` the test `· = 0`, the small-size `lincomb` computes
+`a·x₁ + b·x₂` (the `a == 0 and b == 0` shortcut changes nothing), so `multScalarLeaf` computes
+`c·x`. Over the doubles the two differ in the sign of zero and on NaN/inf entries of `x`
+(`0·inf`), which is why the model keeps the shortcut and the `+ 0·x`. -/
+theorem C03.lincomb_small_value {K : Type} [CommRing K] (isz : K → Bool)
+    (hz : ∀ a : K, isz a = true ↔ a = 0) (a b : K) (x1 x2 : Vec K) :
+    lincombSmall isz a x1 b x2 = (fun i => a * x1 i + b * x2 i) ∧
+    (multScalarLeaf isz (fun _ _ => 0) a).phi x1 = fun i => a * x1 i := by
+  have h1 : ∀ (a b : K) (x1 x2 : Vec K),
+      lincombSmall isz a x1 b x2 = (fun i => a * x1 i + b * x2 i) := by
+    intro a b x1 x2
+    unfold lincombSmall
+    split_ifs with h
+    · simp only [Bool.and_eq_true] at h
+      funext i
+      rw [(hz a).mp h.1, (hz b).mp h.2]; ring
+    · rfl
+  refine ⟨h1 a b x1 x2, ?_⟩
+  simp only [multScalarLeaf, h1]
+  funext i; ring
